@@ -59,7 +59,21 @@ var (
 )
 
 func allScenarios() []*scenario {
-	scOnce.Do(func() { scList = scenarios() })
+	scOnce.Do(func() {
+		scList = scenarios()
+		// C04_SCENARIOS (development aid for surveys): comma-separated scenario names to keep
+		if only := os.Getenv("C04_SCENARIOS"); only != "" {
+			var keep []*scenario
+			for _, sc := range scList {
+				for _, n := range strings.Split(only, ",") {
+					if sc.name == n {
+						keep = append(keep, sc)
+					}
+				}
+			}
+			scList = keep
+		}
+	})
 	return scList
 }
 
